@@ -42,3 +42,5 @@ def run : IO Unit := do
   lineLoop (← IO.getStdin) (← IO.getStdout) answer
 
 end SwayVerif.Driver.C23
+
+def main : IO Unit := SwayVerif.Driver.C23.run
